@@ -6,11 +6,12 @@
 (* mechanism transcription against the same clauses.                                   *)
 EXTENDS Integers, Sequences, FiniteSets, TLC
 
-Probes == {"p1", "p2", "p3", "p4", "p5", "p6", "p7", "p8", "p9", "bad", "bad2"}
+Probes == {"p1", "p2", "p3", "p4", "p5", "p6", "p7", "p8", "p9", "p10", "bad", "bad2"}
 Valid(p) == p \notin {"bad", "bad2"}
 Fns == {"f", "g"}
 \* functions a probe's selector names (they are instrumented while the probe is active)
-Touches(p) == CASE p \in {"p1", "p2", "p5", "p7", "p8", "p9", "bad"} -> {"f"}
+\* p10 = Probe('f > a', 'f(!a)'): one probe given the same selector twice, in two spellings (one interned object)
+Touches(p) == CASE p \in {"p1", "p2", "p5", "p7", "p8", "p9", "p10", "bad"} -> {"f"}
                 [] p \in {"p3", "p6"} -> {"f", "g"}
                 [] p \in {"p4", "bad2"} -> {"g"}
 
@@ -30,6 +31,7 @@ EventsOf(p, fn, v) ==
     [] p = "p7" /\ fn = "f" -> << {<<"c", v>>} >>
     [] p = "p8" /\ fn = "f" -> << {<<"c", v>>}, {<<"c", v + 1>>} >>
     [] p = "p9" /\ fn = "f" -> << {<<"ta", v + 1>>} >>
+    [] p = "p10" /\ fn = "f" -> << {<<"a", v + 1>>}, {<<"a", v + 1>>} >>        \* once per selector the probe was given
     [] OTHER -> <<>>
 
 \* a listener that raises: the exception reaches the caller of the probed function, nothing else changes
